@@ -232,7 +232,7 @@ def _exp_cases(draw):
         # very unbalanced classes (the fixed-width search is sensitive to the class ratio, in
         # either direction; beyond 16:1 its displacement slope leaves [1/4, 4])
         small = [k / 2 for k in draw(st.lists(st.integers(-20, 20), min_size=1, max_size=3))]
-        lo_big = 16 * len(small) + 1 if draw(st.booleans()) else 17
+        lo_big = 16 * len(small) + 1 if shape == "few-pos" or draw(st.booleans()) else 17
         big = [k / 2 for k in draw(st.lists(st.integers(-20, 20), min_size=lo_big, max_size=lo_big + 43))]
         o = dict(o, pos=big if shape == "few-neg" else small, neg=small if shape == "few-neg" else big,
                  mode="grid")
@@ -261,6 +261,13 @@ def check_experimental(case):
     f = getattr(experimental, case["fn"])
     c = f(s, alpha=case["alpha"], config=cfg, **_kwargs(case["sup"]))
     wellformed(c, s, ctx, unit_interval=False)
+    unbalanced = len(o["neg"]) * 16 < len(o["pos"]) or len(o["pos"]) * 16 < len(o["neg"])
+    if case["fn"] == "fixed_width_band_ci" and unbalanced and not case["identity"]:
+        # the search for the band width depends on the bootstrap samples drawn: a few more RNG states
+        for extra in range(1, 7):
+            np.random.seed((case["seed"] + extra) % 2**32)
+            c = f(s, alpha=case["alpha"], config=cfg, **_kwargs(case["sup"]))
+            wellformed(c, s, f"{ctx} (+{extra})", unit_interval=False)
     labels = [case["fn"], f"sup:{case['sup']['kind']}"]
     if len(o["neg"]) * 16 < len(o["pos"]) or len(o["pos"]) * 16 < len(o["neg"]):
         labels.append("very-unbalanced")
